@@ -122,6 +122,12 @@ def generate(seed, scratch, nvariants=3, hashseeds=None):
     for j in range(rs.randint(0, 3)):
         files[os.path.join(world["root"], rs.choice(["d1", "d2", "sub"]), f"u{j}.c")] = {
             "lang": "c", "items": [["code", rs.randint(1, 3)]]}
+    if rs.random() < 0.06:
+        # large generated tables vendored in two revisions (identical for the first 64 KiB and more), two copies each
+        pad = "".join(f"// row {k:06d} 0123456789abcdef0123456789abcdef\n" for k in range(1700))
+        for rev in ("1", "2"):
+            for where in ("d1", "d2/inc"):
+                files[os.path.join(world["root"], where, f"table_r{rev}.h")] = {"lang": "c", "text": pad + f"int table_rev{rev};\n"}
     nfiles = len(files)
     nplat = len(world["platforms"])
     variants = []
